@@ -1,5 +1,7 @@
 (* entry point: driver <scripts>            run every script through its engine's model
-                driver --concretize <scripts>  rewrite abstract ops into concrete ones (test generation) *)
+                driver --concretize <scripts>  rewrite abstract ops into concrete ones (test generation)
+                driver --codes <scripts>    `C <id>` / one line of numbers per observation / `E`: the numeric
+                                            serialisation compared with the in-Coq evaluation (tools/coqeval.py) *)
 open Driver
 
 let () =
@@ -9,6 +11,17 @@ let () =
       let lines = match Hashtbl.find_opt concretizers s.engine with
         | Some f -> f s
         | None -> List.map (String.concat " ") s.ops in
+      List.iter (fun l -> print_string l; print_char '\n') lines;
+      print_string "E\n") (read_scripts Sys.argv.(2));
+    exit 0
+  end;
+  if Sys.argv.(1) = "--codes" then begin
+    List.iter (fun s ->
+      let lines = try (match Hashtbl.find_opt coders s.engine with
+        | Some f -> f s
+        | None -> ["no-coder " ^ s.engine])
+        with Failure m -> ["model-failure " ^ (String.map (fun c -> if c = ' ' then '_' else c) m)] in
+      print_string ("C " ^ s.id ^ "\n");
       List.iter (fun l -> print_string l; print_char '\n') lines;
       print_string "E\n") (read_scripts Sys.argv.(2));
     exit 0
